@@ -529,7 +529,7 @@ def run(prop, tier, seed, timeout_s, args, t_start):
             if any(r["res"] in ("sat", "cand") and g["kind"] != "canary"
                    for g in sr["script"]["goals"] for r in [sr["results"][g["id"]]]):
                 ncand += 1
-            if ncand >= 8 and len(solved) < len(work) and os.environ.get("VERIF_NO_EARLY") != "1":
+            if ncand >= 8 and len(solved) < len(work) and os.environ.get("VERIF_NO_EARLY") != "1" and not known:
                 early = True     # enough refuted obligations to triage: fail fast
                 break
         t_solve = time.time() - t_b
@@ -626,7 +626,10 @@ def run(prop, tier, seed, timeout_s, args, t_start):
                     rec["result"] = "known-finding"
                     continue
                 s_, g_ = rec["_script"], rec["_goal"]
-                r2 = solve_script((dict(s_, pc=s_["pc"] + [f"(not {kf['region']})"], goals=[dict(g_)]), timeout_s, False))
+                region = kf["region"]
+                if region.startswith("@"):
+                    region = getattr(mod, "REGIONS")[region[1:]](rec["cfg"])
+                r2 = solve_script((dict(s_, pc=s_["pc"] + [f"(not {region})"], goals=[dict(g_)]), timeout_s, False))
                 rr = list(r2["results"].values())[0]
                 if rr["res"] == "unsat":
                     rec["result"] = "known-finding"
